@@ -64,6 +64,17 @@ func (t *tStructProto) structPack(m erpc.Message) error {
 	} else if bodyCodec != codec.ID_THRIFT {
 		return errors.New("body codec must be thrift")
 	}
+	// decide what to write before anything reaches the wire
+	var s thrift.TStruct
+	switch body := m.Body().(type) {
+	case nil:
+		// e.g. a reply that only carries a status
+		s = codec.ThriftEmptyStruct
+	case thrift.TStruct:
+		s = body
+	default:
+		return fmt.Errorf("thrift codec: %T does not implement thrift.TStruct", m.Body())
+	}
 	t.packLock.Lock()
 	defer t.packLock.Unlock()
 	t.rwCounter.WriteCounter.Zero()
@@ -73,10 +84,6 @@ func (t *tStructProto) structPack(m erpc.Message) error {
 		return err
 	}
 
-	s, ok := m.Body().(thrift.TStruct)
-	if !ok {
-		return fmt.Errorf("thrift codec: %T does not implement thrift.TStruct", m.Body())
-	}
 	if err = s.Write(t.tProtocol); err != nil {
 		return err
 	}
@@ -113,7 +120,12 @@ func (t *tStructProto) structUnpack(m erpc.Message) error {
 	m.UnmarshalBody(nil)
 	s, ok := m.Body().(thrift.TStruct)
 	if !ok {
-		return fmt.Errorf("thrift codec: %T does not implement thrift.TStruct", m.Body())
+		if m.Body() != nil {
+			return fmt.Errorf("thrift codec: %T does not implement thrift.TStruct", m.Body())
+		}
+		// nobody takes the body (unknown route, unmatched reply, status-only reply):
+		// skip the struct so that the stream stays in frame sync
+		s = codec.NewThriftEmpty()
 	}
 	if err = s.Read(t.tProtocol); err != nil {
 		return err
